@@ -400,8 +400,47 @@ def gen_tight(rng, want):
     return c
 
 
+def gen_segtilt(rng):
+    """3-4 segments in a row (or column) carrying different fitted tilts, imaged with small per-segment propagation
+    windows (prop_shape): chain / bridge overlap topologies of the windows in every stack order (oracle only)"""
+    k = rng.randint(3, 4)
+    sh, sw, gap = rng.randint(2, 3), rng.randint(2, 3), rng.randint(0, 1)
+    nr, nc = sh + rng.randint(0, 2), k * (sw + gap) + rng.randint(0, 2)
+    r0 = rng.randint(0, nr - sh)
+    order = list(range(k))
+    rng.shuffle(order)                          # stack order of the segments: every permutation
+    segs = [[r0, r0 + sh, pos * (sw + gap), pos * (sw + gap) + sw] for pos in order]
+    T = rng.randint(3, 9)
+    pattern = rng.choice([[-T, T, 0], [0, T, 2 * T], [-T, 0, T], [T, -T, 0], ['r', 'r', 'r']])
+    tl = [rng.choice([0, 0, 3, -4, 6.5, -7.25, 10, -12, 2.5]) if v == 'r' else v for v in pattern]
+    while len(tl) < k:
+        tl.append(rng.choice([0, T, -T, 2.5, -T - 0.5]))
+    rng.shuffle(tl)                             # which segment bridges, and where it sits in the stack
+    tilts = [[str(rng.choice([0, 0, 0, 2, -3.5])), str(v)] for v in tl]
+    transpose = rng.random() < 0.3
+    os_ = rng.choice([1, 1, 2])
+    P = rng.randint(max(nr, nc, 2 * T + 6), 40)
+    npix = -(-P // os_)
+    amp = [[rng.choice([1, 1, 0.5, 2, 1.5]) for _ in range(nc)] for _ in range(nr)]
+    props = sorted({max(2, T // 2), T + rng.randint(1, 3), 2 * T + rng.randint(1, 4)})
+    props = [-(-v // os_) for v in props]       # detector pixels
+    shape = [rng.randint(max(1, min(4, npix)), npix), rng.randint(max(1, npix // 2), npix)]
+    c = {'op': 'segtilt', 'npix': [npix, npix], 'os': os_, 'aniso': 'none',
+         'dexp': rng.choice([6, 7, 8]), 'uexp': rng.choice([16, 17, 18]), 'z': rng.choice(['1', '2', '1/2']),
+         'grid': [nr, nc], 'segs': segs, 'tilts': tilts, 'amp': amp, 'shape': shape, 'props': props,
+         'transpose': transpose}
+    return c
+
+
 def generate(rng, tier):
     n_cases = 110 if tier == 'quick' else 1500
+    out = 0
+    while out < (30 if tier == 'quick' else 300):
+        c = gen_segtilt(rng)
+        if not alpha_ok(c):
+            continue
+        out += 1
+        yield c
     for k in range(12 if tier == 'quick' else 120):
         yield gen_tight(rng, ['below', 'below', 'exact', 'above'][k % 4])
     out = 0
@@ -454,6 +493,8 @@ def generate(rng, tier):
 
 
 def classify(c):
+    if c['op'] == 'segtilt':
+        return 'segtilt/%dseg/os%d' % (len(c['segs']), c['os'])
     if c['op'] == 'tight':
         return 'tight/os%d/%s' % (c['os'], '-'.join(tight_side(c)))
     if c.get('masks'):
@@ -470,6 +511,8 @@ def classify(c):
 
 
 def nontrivial(c):
+    if c['op'] == 'segtilt':
+        return True
     if c['op'] == 'tight':
         return True
     if c.get('big'):
@@ -497,6 +540,8 @@ def supplied_root(q):
 
 
 def encode(c):
+    if c['op'] == 'segtilt':
+        return None          # per-segment tilted windows: decided by the energy oracle
     if c['op'] == 'tight':
         return None          # non-dyadic physical values, pupils up to 40x40: decided by the energy oracle
     if c.get('big'):
@@ -656,9 +701,67 @@ def oracle_masks(c, r, pin):
     return None
 
 
+def run_segtilt(lentil, c):
+    dx, du, z, lam = sampling(c)
+    fdx, fdu, z, lam = (float(dx[0]), float(dx[1])), (float(du[0]), float(du[1])), float(z), float(lam)
+    os_ = c['os']
+    nr, nc = c['grid']
+    amp = np.array(c['amp'], dtype=float)
+    mask = np.zeros((len(c['segs']), nr, nc))
+    for j, (r0, r1, c0, c1) in enumerate(c['segs']):
+        mask[j, r0:r1, c0:c1] = 1
+    rr = (np.arange(nr) - nr // 2) * fdx[0]
+    cc = (np.arange(nc) - nc // 2) * fdx[1]
+    opd = np.zeros((nr, nc))
+    for m_, (tr, tc) in zip(mask, c['tilts']):       # a linear OPD ramp per segment: tr / tc output samples of image motion
+        opd += m_ * ((float(Fraction(tr)) * fdu[0] / (os_ * z)) * rr[:, None] + (float(Fraction(tc)) * fdu[1] / (os_ * z)) * cc[None, :])
+    shape = tuple(c['shape'])
+    if c.get('transpose'):
+        amp, mask, opd, shape = amp.T, mask.transpose(0, 2, 1), opd.T, shape[::-1]
+    pupil = lentil.Pupil(amplitude=amp, opd=opd, mask=mask, pixelscale=fdx, focal_length=z)
+    pupil.fit_tilt(inplace=True)
+    w = lentil.Wavefront(lam) * pupil
+    pin = float(np.sum(np.abs(amp * mask.sum(axis=0)) ** 2))
+    res = {'pin_amp': pin, 'pin_field': float(np.sum(np.abs(w.field) ** 2)), 'n_fields': len(w.data),
+           'n_tilted': sum(1 for f in w.data if f.tilt), 'E': [], 'Efield': [], 'min': 0.0, 'offsets': []}
+    for ps in c['props']:
+        o = lentil.propagate_dft(w, pixelscale=fdu, shape=shape, prop_shape=ps, oversample=os_)
+        img = o.intensity
+        res['E'].append(float(np.sum(img)))
+        res['Efield'].append(float(np.sum(np.abs(o.field) ** 2)))      # the power of the complex image field
+        res['min'] = min(res['min'], float(np.min(img)))
+        res['offsets'].append([[int(v) for v in f.offset] for f in o.data])
+    return res
+
+
+def oracle_segtilt(c, impl):
+    pin = impl['pin_amp']
+    where = (f'{len(c["segs"])} segments (stack order {[s[2] for s in c["segs"]]} by first column) with fitted tilts '
+             f'{c["tilts"]} output samples, shape {c["shape"]}, oversample {c["os"]}')
+    if not close(pin, impl['pin_field'], 1e-12):
+        return f'{where}: sum|Wavefront.field|^2 = {impl["pin_field"]!r}, sum|amplitude*mask*phasor|^2 = {pin!r}'
+    if impl['n_fields'] != len(c['segs']):
+        return f'{where}: the pupil-plane wavefront has {impl["n_fields"]} fields'
+    if impl['min'] < 0:
+        return f'{where}: negative intensity sample {impl["min"]!r}'
+    for ps, e, ef, off in zip(c['props'], impl['E'], impl['Efield'], impl['offsets']):
+        if e < 0 or e > pin * (1 + TOL):
+            return (f'{where}, prop_shape {ps}: the image holds {e!r}, more than the input power {pin!r} '
+                    f'(per-segment windows at offsets {off})')
+        if abs(e - ef) > TOL * pin:
+            return (f'{where}, prop_shape {ps}: total intensity {e!r} differs from the power of the complex image field '
+                    f'sum|Wavefront.field|^2 = {ef!r} (per-segment windows at offsets {off}; input power {pin!r})')
+    return None
+
+
 def run_impl(c):
     lentil = C.import_lentil()
     fresh_state(lentil)
+    if c['op'] == 'segtilt':
+        try:
+            return run_segtilt(lentil, c)
+        except Exception as e:
+            return {'err': type(e).__name__, 'msg': str(e)[:200]}
     if c['op'] == 'tight':
         try:
             return run_tight(lentil, c)
@@ -876,6 +979,8 @@ def oracle(c, impl):
         return oracle_hist(c, impl)
     if c['op'] == 'tight':
         return oracle_tight(c, impl)
+    if c['op'] == 'segtilt':
+        return oracle_segtilt(c, impl)
     if c['op'] == 'normalize':
         p = float(Fraction(c['power']))
         if abs(impl['power'] - p) > (1e-6 if c.get('dtype') == 'float32' else 1e-12) * (1 + p):
